@@ -737,12 +737,15 @@ func (t *State) doTxSync(tx *pb.Transaction) error {
 	t.utxo.Mutex.RLock()
 	defer t.utxo.Mutex.RUnlock() //lock guard
 	spLockKeys := t.utxo.SpLock.ExtractLockKeys(tx)
+	verifHook("dotx_before_trylock")
 	succLockKeys, lockOK := t.utxo.SpLock.TryLock(spLockKeys)
 	defer t.utxo.SpLock.Unlock(succLockKeys)
+	defer verifHook("dotx_before_unlock")
 	if !lockOK {
 		t.log.Info("failed to lock", "txid", utils.F(tx.Txid))
 		return ErrDoubleSpent
 	}
+	verifHook("dotx_locked")
 	waitTime := time.Now().Unix() - recvTime
 	if waitTime > TxWaitTimeout {
 		t.log.Warn("dotx wait too long!", "waitTime", waitTime, "txid", utils.F(tx.Txid))
@@ -754,6 +757,7 @@ func (t *State) doTxSync(tx *pb.Transaction) error {
 	}
 	batch := t.ldb.NewBatch()
 	cacheFiller := &utxo.CacheFiller{}
+	verifHook("dotx_before_apply")
 	doErr := t.doTxInternal(tx, batch, cacheFiller)
 	if doErr != nil {
 		t.log.Info("doTxInternal failed, when DoTx", "doErr", doErr)
@@ -761,7 +765,9 @@ func (t *State) doTxSync(tx *pb.Transaction) error {
 	}
 	batch.Put(append([]byte(pb.UnconfirmedTablePrefix), tx.Txid...), pbTxBuf)
 	t.log.Debug("print tx size when DoTx", "tx_size", batch.ValueSize(), "txid", utils.F(tx.Txid))
+	verifHook("dotx_before_write")
 	writeErr := batch.Write()
+	verifHook("dotx_after_write")
 	if writeErr != nil {
 		t.ClearCache()
 		t.log.Warn("fail to save to ldb", "writeErr", writeErr)
